@@ -52,3 +52,46 @@ package backend
 //@   ensures {C08} [open-range-is-served] wellFormedStart && first < size && lastTxt == "" ==> err == nil
 //@   ensures {C08} [malformed-is-an-error] acceptRange != "" && !wellFormedStart ==> err != nil
 //@   ensures {C08} [reversed-is-an-error] wellFormedStart && lastTxt != "" && strconv.ParseInt(lastTxt, 10, 64).1 == nil && last < first ==> err != nil
+
+// ---- C07: listings — page bound, continuation marker, what may be skipped and what may be listed --------------
+// Walk drives fs.WalkDir with a function literal that keeps the page state in captured variables. The page
+// invariant is carried across the library call by the after-call rule: it holds at the call, the literal assumes it
+// on entry and re-establishes it on every return, so it holds when WalkDir comes back.
+// Not expressed here (needs a specification of the whole traversal over all key sets): completeness, global key
+// order, exactly-once across pages.
+//@ func contains
+//@   pure
+//@ func Walk
+//@   frame none
+//@   requires {C07} [max-keys-is-a-count] max >= 0
+//@   let pageInv = len(objects) + len(cpmap) <= max && (pastMax <==> len(objects) + len(cpmap) == max) && (pastMax ==> newMarker != "") && (truncated ==> pastMax)
+//@   at-call fs.WalkDir {C07} [page-state-initialised] requires pageInv
+//@   after-call fs.WalkDir {C07} [page-state-kept-by-the-callback] invariant pageInv
+//@   ensures {C07} [at-most-max-keys-objects] err == nil ==> len(ret0.Objects) <= max
+//@   ensures {C07} [truncated-page-names-where-to-continue] err == nil && ret0.Truncated ==> ret0.NextMarker != ""
+//@   ensures {C07} [complete-page-has-no-marker] err == nil && !ret0.Truncated ==> ret0.NextMarker == ""
+//@   ensures {C07} [max-keys-zero-is-an-empty-complete-page] err == nil && max == 0 ==> !ret0.Truncated && len(ret0.Objects) == 0 && len(ret0.CommonPrefixes) == 0
+//@ func Walk$1
+//@   let pageInv = len(objects) + len(cpmap) <= max && (pastMax <==> len(objects) + len(cpmap) == max) && (pastMax ==> newMarker != "") && (truncated ==> pastMax)
+//@   let key = ite(d.IsDir(), path + "/", path)
+//@   let inSkipList = called("backend.contains") && result("backend.contains", 0)
+//@   requires {C07} pageInv
+//@   requires {C07} [walkdir-passes-a-name] path != "" && d != nil && cpmap != nil && max > 0
+//@   ensures {C07} [page-state-kept] pageInv
+//@   let ownDecision = in2 == nil && (called("context.Context.Err") && result("context.Context.Err", 0) == nil)
+//@   let rolledUp = delimiter != "" && strings.HasPrefix(path + "/", prefix) && strings.Contains(strings.TrimPrefix(path + "/", prefix), delimiter)
+//@   ensures {C07} [a-directory-is-skipped-only-if-nothing-below-it-is-listed-separately] ownDecision && ret0 == fs.SkipDir ==> \
+//@        inSkipList || (d.IsDir() && ( \
+//@            (prefix != "" && !strings.HasPrefix(path + "/", prefix) && !strings.HasPrefix(prefix, path + "/")) || rolledUp))
+//@   ensures {C07} [truncation-is-declared-only-on-a-full-page-and-stops-the-walk] truncated != old(truncated) ==> truncated && old(pastMax) && ret0 == fs.SkipAll
+//@   let listed = len(objects) == old(len(objects)) + 1
+//@   ensures {C07} [a-listed-key-has-the-prefix] listed ==> prefix == "" || strings.HasPrefix(key, prefix)
+//@   ensures {C07} [a-listed-key-is-after-the-marker] listed ==> old(pastMarker) || (key != marker && !(key < marker))
+//@   ensures {C07} [a-listed-key-is-not-rolled-into-a-common-prefix] listed ==> delimiter == "" || !strings.Contains(strings.TrimPrefix(key, prefix), delimiter)
+//@   ensures {C07} [nothing-is-listed-on-a-full-page] listed ==> !old(pastMax)
+//@   ensures {C07} [objects-only-grow-by-one] len(objects) == old(len(objects)) || len(objects) == old(len(objects)) + 1
+
+// the empty string is passed on as "absent", any other string as a pointer to an equal string
+//@ func GetPtrFromString
+//@   frame none
+//@   ensures {C07} [empty-is-absent] (str == "" ==> ret0 == nil) && (str != "" ==> ret0 != nil && *ret0 == str)
